@@ -1,8 +1,8 @@
 (* C17 — Generated problems are always valid and contain what they promise.
    Generators are functions of an oracle stream of draws (theories/Problems.v); "for every stream" covers every seed. *)
-From Coq Require Import List NArith ZArith QArith Bool.
+From Coq Require Import List NArith ZArith QArith Qround Bool.
 From Mathy Require Import Params Lexer Expr Parser Problems.
-From MathyProofs Require Import ProblemsFacts.
+From MathyProofs Require Import ProblemsFacts SimplifyLike.
 Import ListNotations.
 
 (* every structured problem text, whatever its terms, groups and operators, renders to a string the parser accepts *)
@@ -44,6 +44,19 @@ Proof.
   split; [intros; eapply blockers1_like; eauto|intros; eapply blockers2_like; eauto].
 Qed.
 Print Assumptions C17_like_pair_promised.
+
+(* gen_simplify_multiple_terms ("a polynomial problem with like terms that need to be combined") keeps that promise whenever the
+   like-term templates are repeated - fewer templates than terms - and the variable of a term is not optional: for every seed, both
+   number modes, every operator mode and every probability setting the result contains two terms over the same variable with the same
+   power (through noise terms, shuffling and grouping). With more templates than terms (inner_terms_scaling = 1) there is no such pair
+   in general, and with '*' as operator the pair is a product, not a sum: the implementation's has_like_terms is held to the promise
+   by the suite only for the additive operator modes. *)
+Theorem C17_simplify_like_pair_promised : forall pretty nt m its pp ovp np shp svp gnp noise s p c r,
+  gen_simplify_multiple_terms pretty nt false m its pp ovp np shp svp gnp noise s = POk (p, c) r ->
+  ((if nt =? 2 then 1 else Z.max 2 (Qfloor (inject_Z nt * its))) < nt)%Z ->
+  like_pair (terms_of p).
+Proof. exact simplify_like. Qed.
+Print Assumptions C17_simplify_like_pair_promised.
 
 (* requested variable sets: the requested number, pairwise distinct, from the alphabet, none of the excluded; raising exactly
    when the request is infeasible *)
